@@ -240,6 +240,22 @@ def o152(ctx):
         ctx.finding(q, ds[0].node, "binning must average (1, b, b) blocks: tilts untouched, height and width by the factor", ds[0].node, m)
 
 
+
+def _data_param(ctx, meth, pos):
+    """name of the optional data parameter of a TiltStack method (the `pos`-th parameter after self), as it is called today"""
+    _, f = ctx.prog.func(TS + "TiltStack." + meth)
+    names = [a.arg for a in f.args.posonlyargs + f.args.args][1:]
+    if len(names) <= pos:
+        raise Unsupported(f"TiltStack.{meth}: no optional data parameter", f)
+    return names[pos]
+
+
+def _written(ctx, w):
+    """the array a write_out call hands over (bound through the method's signature)"""
+    name = _data_param(ctx, "write_out", 1)
+    return w.kwargs.get(name, w.args[1] if len(w.args) > 1 else None)
+
+
 def o153(ctx):
     """split / flip / merge"""
     q = TS + "split_stack_even_odd"
@@ -279,7 +295,7 @@ def o153(ctx):
                 ctx.count(1)
                 for w in wr:
                     nm = tm.show(to_term(w.arg(0)))
-                    nd = w.kwargs.get("new_data")
+                    nd = _written(ctx, w)
                     src = evens[0].args[0] if "_even" in nm else odds[0].args[0] if "_odd" in nm else None
                     if src is None or nd is None or not tm.has_call(to_term(nd), "numpy.stack") and to_term(nd) != to_term(src):
                         ctx.finding(q, w.node, "the even half must be written to <prefix>_even.mrc and the odd half to <prefix>_odd.mrc",
@@ -311,7 +327,7 @@ def o153(ctx):
                         "every tilt in exactly one half", co[0].node, m, halves=halves)
         for w in wr:
             nm = tm.show(to_term(w.arg(0)))
-            nd = w.kwargs.get("new_data")
+            nd = _written(ctx, w)
             want = "even" if "_even" in nm else "odd" if "_odd" in nm else None
             ctx.count(1)
             if want is None or nd is None or half(to_term(nd)) != want:
@@ -396,7 +412,8 @@ def o155(ctx):
     qc = TS + "TiltStack.correct_order"
     mc, fc = ctx.prog.func(qc)
     for out, cur, want in (("xyz", "zyx", True), ("zyx", "zyx", False)):
-        it = Interp(ctx.prog, assume=assume_map({"return_data.dtype != self.data_type": False, "new_data is not None": False}))
+        dp = _data_param(ctx, "correct_order", 0)
+        it = Interp(ctx.prog, assume=assume_map({"return_data.dtype != self.data_type": False, f"{dp} is not None": False}))
         data = Unk(sym("stack"))
         data.rank = 3
         me = Obj("tiltstack.TiltStack", {"data": data, "data_type": Unk(sym("dtype")), "current_order": K(cur), "output_order": K(out)})
@@ -408,7 +425,7 @@ def o155(ctx):
                         f"{out!r} and the internal one {cur!r}; found {perms}", fc, mc)
     # the returned array has the stack's data type in either output order (the same conversion the file sink applies)
     for out, cur in (("xyz", "zyx"), ("zyx", "zyx")):
-        it = Interp(ctx.prog, assume=assume_map({"return_data.dtype != self.data_type": True, "new_data is not None": True}))
+        it = Interp(ctx.prog, assume=assume_map({"return_data.dtype != self.data_type": True, f"{dp} is not None": True}))
         me = Obj("tiltstack.TiltStack", {"data": Unk(sym("stack")), "data_type": Unk(sym("dtype")), "current_order": K(cur), "output_order": K(out)})
         res_ = Unk(sym("result"))
         res_.rank = 3
@@ -422,14 +439,15 @@ def o155(ctx):
                         f"sink does; returned: {tm.show(t_)[:80]}", fc, mc)
     qw = TS + "TiltStack.write_out"
     mw, fw = ctx.prog.func(qw)
-    it = Interp(ctx.prog, no_inline=("cryomap.write",), assume=assume_map({"output_file": True, "new_data is not None": False}))
+    it = Interp(ctx.prog, no_inline=("cryomap.write",), assume=assume_map({"output_file": True, _data_param(ctx, "write_out", 1) + " is not None": False}))
     me = Obj("tiltstack.TiltStack", {"data": Unk(sym("stack")), "data_type": Unk(sym("dtype"))})
     it.run(qw, [P("output_file")], {}, self_obj=me)
     wr = [e for e in it.events if e.kind == "call" and e.name == "cryocat.cryomap.write"]
     ctx.count(1)
-    tr = wr[0].kwargs.get("transpose") if wr else None
-    if not wr or tr is None or not (is_pyconst(tr) and pyval(tr) is False) or to_term(wr[0].arg(0)) != sym("stack") \
-            or to_term(wr[0].kwargs.get("data_type", K(None))) != sym("dtype"):
+    bw = _c11.bind(ctx.prog, _c11.WR, wr[0]) if wr else {}
+    tr = bw.get("transpose")
+    if not wr or tr is None or not (is_pyconst(tr) and pyval(tr) is False) or to_term(bw.get(ctx.prog.func(_c11.WR)[1].args.args[0].arg, K(None))) != sym("stack") \
+            or to_term(bw.get("data_type", K(None))) != sym("dtype"):
         ctx.finding(qw, wr[0].node if wr else fw, "the internal (n,y,x) stack must be written as it is (transpose=False) with the stack's "
                     "data type", wr[0].node if wr else fw, mw)
 
